@@ -192,7 +192,7 @@ type c16resp struct {
 	head   string
 }
 
-func c16split(buf []byte) (out []c16resp, rest []byte) {
+func c16split(buf []byte, reqs []c16req) (out []c16resp, rest []byte) {
 	for {
 		i := bytes.Index(buf, []byte("\r\n\r\n"))
 		if i < 0 {
@@ -204,6 +204,9 @@ func c16split(buf []byte) (out []c16resp, rest []byte) {
 			if k := strings.IndexByte(l, ':'); k > 0 && strings.EqualFold(l[:k], "Content-Length") {
 				cl, _ = strconv.Atoi(strings.TrimSpace(l[k+1:]))
 			}
+		}
+		if len(out) < len(reqs) && reqs[len(out)].method == "HEAD" {
+			cl = 0 // a response to HEAD carries no body, whatever its Content-Length says
 		}
 		if len(buf) < i+4+cl {
 			return out, buf
@@ -224,7 +227,7 @@ func c16reference(sc c16scn) []c16resp {
 	s.Handler = func(ctx *RequestCtx) { ctx.SetBodyString("ok:" + string(ctx.Path())) }
 	c := vnet.NewConn(c16wire(sc.reqs))
 	s.ServeConn(c) //nolint:errcheck
-	out, _ := c16split(c.Output())
+	out, _ := c16split(c.Output(), sc.reqs)
 	return out
 }
 
@@ -305,7 +308,7 @@ func c16check(sc c16scn, ref []c16resp) func(x *mcrt.Exec) (string, string, stri
 		if len(o.notes) > 0 {
 			return "note", "handler-sees-foreign-request", o.notes[0]
 		}
-		rs, rest := c16split(o.wire)
+		rs, rest := c16split(o.wire, sc.reqs)
 		var cls []string
 		ctxt := func() string { return fmt.Sprintf("wire=%q entryRunning=%v entryOcc=%v events=%v", o.wire, o.entryRunning, o.entryOcc, o.log) }
 		closedEarly := false
@@ -322,7 +325,10 @@ func c16check(sc c16scn, ref []c16resp) func(x *mcrt.Exec) (string, string, stri
 				run, occ, lateRet = o.entryRunning[i], o.entryOcc[i], o.entryLateRet[i]
 			}
 			late := strings.Contains(string(r.raw), "late") || strings.Contains(string(r.raw), "X-Late") || strings.Contains(string(r.raw), "LATE-TMO")
-			isTimeout := r.status == sc.code && r.body == c16msg && !late
+			isTimeout := r.status == sc.code && (r.body == c16msg || rq.method == "HEAD") && !late
+			if i > 0 && sc.reqs[i-1].method == "HEAD" && bytes.HasPrefix(r.raw, []byte(c16msg+"HTTP/")) {
+				return strings.Join(cls, ","), "head-timeout-response-carries-body", fmt.Sprintf("the timeout response to the HEAD request %s was sent with its body: the next response on the connection starts with %q; %s", sc.reqs[i-1].path, r.raw[:len(c16msg)+12], ctxt())
+			}
 			if r.status == StatusTooManyRequests && r.body == c16msg && !late {
 				cls = append(cls, "429")
 				// slots are held by running handlers and, for an instant, by handlers that returned but whose goroutine has
@@ -418,20 +424,29 @@ func TestVerif_C16(t *testing.T) {
 	P := func(p, body string) c16req { return c16req{"POST", p, body} }
 	sec := time.Second
 	list := []c16scn{
-		{name: "conc2/T1s/d2s/ops-AB/s,f,f", conc: 2, T: sec, d: 2 * sec, code: 408, ops: "AB", reqs: []c16req{G("/s1"), G("/f2"), G("/f3")}},
-		{name: "conc2/T1s/gate/ops-AB/s,f", conc: 2, T: sec, code: 408, ops: "AB", reqs: []c16req{G("/s1"), G("/f2")}},
-		{name: "conc2/T1s/gate/ops-CA/s,f", conc: 2, T: sec, code: 504, ops: "CA", reqs: []c16req{G("/s1"), G("/f2")}},
-		{name: "conc2/T1s/gate/ops-EB/s,f,f", conc: 2, T: sec, code: 408, ops: "EB", reqs: []c16req{G("/s1"), G("/f2"), G("/f3")}},
-		{name: "conc2/T1s/gate/ops-DA/post-s,f", conc: 2, T: sec, code: 408, ops: "DA", reqs: []c16req{P("/s1", "abcd"), G("/f2")}},
-		{name: "conc2/T1s/gate/ops-DA/stream/post-s,f", conc: 2, T: sec, code: 408, ops: "DA", stream: true, reqs: []c16req{P("/s1", "abcd"), G("/f2")}},
-		{name: "conc2/T1s/d1s/ops-A/s,f", conc: 2, T: sec, d: sec, code: 408, ops: "A", reqs: []c16req{G("/s1"), G("/f2")}},
+		{size: 'M', name: "conc2/T1s/d2s/ops-AB/s,f,f", conc: 2, T: sec, d: 2 * sec, code: 408, ops: "AB", reqs: []c16req{G("/s1"), G("/f2"), G("/f3")}},
+		{size: 'M', name: "conc2/T1s/gate/ops-AB/s,f", conc: 2, T: sec, code: 408, ops: "AB", reqs: []c16req{G("/s1"), G("/f2")}},
+		{size: 'M', name: "conc2/T1s/gate/ops-CA/s,f", conc: 2, T: sec, code: 504, ops: "CA", reqs: []c16req{G("/s1"), G("/f2")}},
+		{size: 'M', name: "conc2/T1s/gate/ops-EB/s,f,f", conc: 2, T: sec, code: 408, ops: "EB", reqs: []c16req{G("/s1"), G("/f2"), G("/f3")}},
+		{size: 'M', name: "conc2/T1s/gate/ops-DA/post-s,f", conc: 2, T: sec, code: 408, ops: "DA", reqs: []c16req{P("/s1", "abcd"), G("/f2")}},
+		{size: 'M', name: "conc2/T1s/gate/ops-DA/stream/post-s,f", conc: 2, T: sec, code: 408, ops: "DA", stream: true, reqs: []c16req{P("/s1", "abcd"), G("/f2")}},
+		{size: 'M', name: "conc2/T1s/d1s/ops-A/s,f", conc: 2, T: sec, d: sec, code: 408, ops: "A", reqs: []c16req{G("/s1"), G("/f2")}},
 		{name: "conc2/T2s/d1s/ops-A/s,f", conc: 2, T: 2 * sec, d: sec, code: 408, ops: "A", reqs: []c16req{G("/s1"), G("/f2")}},
-		{name: "conc2/T1s/self/ops-AB/t,f", conc: 2, T: sec, code: 408, ops: "AB", reqs: []c16req{G("/t1"), G("/f2")}},
-		{name: "conc1/T1s/d2s/ops-A/s,f", conc: 1, T: sec, d: 2 * sec, code: 408, ops: "A", reqs: []c16req{G("/s1"), G("/f2")}},
-		{name: "conc1/T1s/gate/ops-A/s,f,f", conc: 1, T: sec, code: 408, ops: "A", reqs: []c16req{G("/s1"), G("/f2"), G("/f3")}},
-		{name: "conc2/T1s/gate/ops-A/s,s,f", conc: 2, T: sec, code: 408, ops: "A", reqs: []c16req{G("/s1"), G("/s2"), G("/f3")}},
+		{size: 'M', name: "conc2/T1s/self/ops-AB/t,f", conc: 2, T: sec, code: 408, ops: "AB", reqs: []c16req{G("/t1"), G("/f2")}},
+		{size: 'M', name: "conc1/T1s/d2s/ops-A/s,f", conc: 1, T: sec, d: 2 * sec, code: 408, ops: "A", reqs: []c16req{G("/s1"), G("/f2")}},
+		{size: 'M', name: "conc1/T1s/gate/ops-A/s,f,f", conc: 1, T: sec, code: 408, ops: "A", reqs: []c16req{G("/s1"), G("/f2"), G("/f3")}},
+		{size: 'M', name: "conc2/T1s/gate/ops-A/s,s,f", conc: 2, T: sec, code: 408, ops: "A", reqs: []c16req{G("/s1"), G("/s2"), G("/f3")}},
+		{size: 'M', name: "conc2/T1s/gate/ops-A/head-s,f", conc: 2, T: sec, code: 408, ops: "A", reqs: []c16req{{"HEAD", "/s1", ""}, G("/f2")}},
 		{name: "conc1/T1s/f,f", conc: 1, T: sec, code: 408, reqs: []c16req{G("/f1"), G("/f2")}},
 		{name: "serveconn-only/T1s/f,f", conc: 2, T: sec, code: 408, serveConn: true, reqs: []c16req{G("/f1"), G("/f2")}},
+	}
+	if r.Thorough() {
+		list = append(list,
+			c16scn{size: 'M', name: "conc2/T1s/gate/ops-ABCE/s,f,f", conc: 2, T: sec, code: 503, ops: "ABCE", reqs: []c16req{G("/s1"), G("/f2"), G("/f3")}},
+			c16scn{size: 'M', name: "conc2/T1s/gate/ops-DB/stream/post-s,post-s,f", conc: 2, T: sec, code: 408, ops: "DB", stream: true, reqs: []c16req{P("/s1", "abcd"), P("/s2", "efgh"), G("/f3")}},
+			c16scn{size: 'M', name: "conc1/T1s/self/ops-CA/t,f,f", conc: 1, T: sec, code: 408, ops: "CA", reqs: []c16req{G("/t1"), G("/f2"), G("/f3")}},
+			c16scn{size: 'M', name: "conc2/T1s/d1s/ops-AB/s,s,f", conc: 2, T: sec, d: sec, code: 408, ops: "AB", reqs: []c16req{G("/s1"), G("/s2"), G("/f3")}},
+		)
 	}
 	var scs []mcx.Scenario
 	for _, sc := range list {
